@@ -3,6 +3,7 @@
 package main
 
 import (
+	"golang.org/x/tools/go/ssa"
 	"encoding/json"
 	"flag"
 	"fmt"
@@ -98,6 +99,27 @@ func run(repo, prop, tier, evPath, verifDir string, seed int, rules []ruleSpec, 
 	fmt.Printf("gonnxcheck property=%s tier=%s repo=%s packages=%d files=%d functions=%d control_functions=%d callgraph=%s nodes=%d\n",
 		prop, tier, repo, 4, c.nFiles, len(c.libFns), len(c.ctlFns), c.cgAlg, len(c.cg.Nodes))
 
+	if fnName := os.Getenv("GONNXCHECK_TERMS"); fnName != "" {
+		// authoring aid: print the terms of stores, calls and returns of one function
+		for _, f := range c.libFns {
+			if !strings.HasSuffix(fname(f), fnName) {
+				continue
+			}
+			fmt.Println("== terms of", fname(f))
+			for _, b := range f.Blocks {
+				for _, in := range b.Instrs {
+					switch x := in.(type) {
+					case *ssa.Store:
+						fmt.Printf("  store %s <- %s   [norm %s]\n", c.term(x.Addr, 0), c.term(x.Val, 0), c.normInt(x.Val, 0))
+					case *ssa.Return:
+						for _, r := range x.Results {
+							fmt.Printf("  return %s\n", c.term(r, 0))
+						}
+					}
+				}
+			}
+		}
+	}
 	for _, r := range rules {
 		n0 := len(c.obls)
 		r.run(c, prop)
